@@ -66,8 +66,8 @@ def seed_cases(summary: Dict, peaks_count: int) -> List[Dict]:
             prim.setdefault(task, [])
     unobserved = 0
     for task in list(prim):
-        missing = [(r["id"], rev) for r in summary["inp"]["refs"] for rev in (False, True)
-                   if (r["id"], rev) not in seen_pairs.get(task, set())]
+        missing = [(r["id"], rev) for r in summary["inp"]["refs"] if r["x"]      # (the reader drops label-less maps, C17)
+                   for rev in (False, True) if (r["id"], rev) not in seen_pairs.get(task, set())]
         if missing:
             for item in _correlate(summary, task[0], missing, peaks_count):
                 unobserved += 1
